@@ -279,6 +279,10 @@ func (g *seqGen) pub() {
 		}
 		f := strings.Fields(res)
 		g.next = atoi(f[1])
+		if n > 0 && n <= len(g.run.lastMsg) && !big && g.r.chance(15) {
+			// Log.Size of a message just published (C13)
+			g.emit("msize " + fmtMsg(g.run.lastMsg[g.r.intn(n)]))
+		}
 	}
 }
 
@@ -649,12 +653,18 @@ func (g *seqGen) history(id int, seed uint64, ops int) {
 			} else {
 				set = g.genOffsets()
 			}
-			res := g.emit("delmulti " + joinOffs(set))
+			dm := "delmulti "
+			if r.chance(30) {
+				dm = "delmultio " // DeleteMultiOffsets
+			}
+			res := g.emit(dm + joinOffs(set))
 			g.removeReported(res)
 		case x < fl.wPub+fl.wDel+fl.wDelMulti+fl.wTrim:
 			multi := 1
 			if r.chance(25) {
 				multi = 0
+			} else if r.chance(30) {
+				multi = 2 // the ...MultiOffsets variant
 			}
 			var line string
 			switch r.intn(4) {
@@ -682,11 +692,19 @@ func (g *seqGen) history(id int, seed uint64, ops int) {
 			if r.chance(25) {
 				multi = 0
 			}
+			if multi == 1 && r.chance(30) {
+				multi = 2 // the ...MultiOffsets variant
+			}
 			kind := "upd"
 			if r.chance(45) {
 				kind = "del"
 			}
-			res := g.emit(fmt.Sprintf("compact %s %d %d", kind, g.genCutoff(), multi))
+			line := fmt.Sprintf("compact %s %d %d", kind, g.genCutoff(), multi)
+			if r.chance(12) {
+				// klevdb.Compact: updates, deletes, GC; everything (0) or nothing (1) is older than its cut-offs
+				line = fmt.Sprintf("compact all %d 1", r.intn(5)/4)
+			}
+			res := g.emit(line)
 			g.removeReported(res)
 		case x < fl.wPub+fl.wDel+fl.wDelMulti+fl.wTrim+fl.wCompact+fl.wFind:
 			switch r.intn(6) {
